@@ -254,6 +254,27 @@ GUARDED = {
 }
 
 
+def _step_fn(f, ty, named, impl_body):
+    if f.has_body("%s::%s" % (ty, named)):
+        return named
+    cands = []
+    for c in impl_body.calls:
+        if c.bb not in impl_body.live:
+            continue
+        for t in c.targets:
+            cid = f.canon_to_id.get(t)
+            if cid is None:
+                continue
+            tb = f.bodies[cid]
+            if tb.kind == "method" and not tb.impl_trait and (tb.self_ty or "").split("<")[0].split("::")[-1] == ty:
+                cands.append((c, tb))
+    last = [(c, tb) for c, tb in cands if not any(c2.bb in impl_body.reachable_after([c.bb]) and c2 is not c for c2, _ in cands)]
+    names_ = sorted({tb.name for _, tb in last})
+    if len(names_) != 1:
+        raise AnchorMissing("%s: step function `%s` not found and no unique last self-call in %s (%s)" % (ty, named, impl_body.id, names_))
+    return names_[0]
+
+
 def _resets(b, Wm, fld, steps):
     w = Wm.get(fld, set())
     return bool(w) and all(b.set_dominates(w - {s_.bb}, s_.bb) for s_ in steps)
@@ -277,6 +298,10 @@ def r5(cx):
             if len(c) != 1:
                 raise AnchorMissing("%s: %d implementations of LSMIterator::%s" % (ty, len(c), m))
             impl[m] = c[0]
+        # the step functions are named in the table, but a wrapper may be inlined / renamed: fall back to the method of the
+        # same type that the absolute repositioner calls LAST (its result is what the repositioner returns)
+        fwd = _step_fn(f, ty, fwd, impl["seek_first"])
+        bwd = _step_fn(f, ty, bwd, impl["seek_last"])
         fields = {x[0]: x[1] for x in f.adt(ty)["variants"][0]["fields"]} if isinstance(f.adt(ty)["variants"], list) else {x[0]: x[1] for x in f.adt(ty)["variants"]["fields"]}
         flags = set()
         for step, methods in ((fwd, ("seek", "seek_first")), (bwd, ("seek_last",))):
